@@ -215,6 +215,8 @@ func c19(c *Ctx) {
 		var req string
 		var o outcome
 		sent := map[string][]byte{} // plain names whose content was sent as a chunk
+		partial := map[string]bool{}
+		_ = partial
 		if abs {
 			req = fmt.Sprintf("c19abs %d %d %s", d, b2i(v2019), Hx(bcd))
 			for _, n := range names {
@@ -229,10 +231,19 @@ func c19(c *Ctx) {
 			segs := [][]byte{Frame808(0x1210, v2019, bcd, 7, Body1210(d, []byte("TERMINAL-ID"), 0, -1, items))}
 			for _, n := range names { // the content of names a chunk header can carry
 				if (len(n) <= 50 || d == AttHLJ) && len(n) > 0 && n[0] != 0 && n[len(n)-1] != 0 && rng.Intn(3) > 0 {
-					if _, dup := sent[string(n)]; !dup {
+					if _, dup := sent[string(n)]; !dup && !partial[string(n)] {
 						data := []byte{byte(rng.Intn(256)), byte(rng.Intn(256)), byte(rng.Intn(256))}
-						sent[string(n)] = data
-						segs = append(segs, Chunk(d, n, 0, data))
+						if rng.Intn(3) == 0 {
+							// a PARTIAL upload: some but not all announced bytes arrive before the connection ends
+							// (whatever the handler does with incomplete files, it must do it inside the directory)
+							segs = append(segs, Chunk(d, n, 0, data[:1+rng.Intn(2)]))
+							sent[string(n)] = nil
+							delete(sent, string(n))
+							partial[string(n)] = true
+						} else {
+							sent[string(n)] = data
+							segs = append(segs, Chunk(d, n, 0, data))
+						}
 					}
 				}
 			}
